@@ -236,8 +236,19 @@ ShellCommand::processDependencyInfoDiscoveredDependencies(BuildSystem& system,
       system.getDelegate().commandFoundDiscoveredDependency(command, path, DiscoveredDependencyKind::Output);
     }
     virtual void actOnInput(StringRef path) override {
-      ti.discoveredDependency(BuildKey::makeNode(path).toData());
-      system.getDelegate().commandFoundDiscoveredDependency(command, path, DiscoveredDependencyKind::Input);
+      // As for the Makefile style: a relative path is relative to the
+      // command's working directory, when one was set explicitly.
+      if (command->workingDirectory.empty() ||
+          llvm::sys::path::is_absolute(path)) {
+        ti.discoveredDependency(BuildKey::makeNode(path).toData());
+        system.getDelegate().commandFoundDiscoveredDependency(command, path, DiscoveredDependencyKind::Input);
+        return;
+      }
+      SmallString<PATH_MAX> absPath = StringRef(command->workingDirectory);
+      llvm::sys::path::append(absPath, path);
+      llvm::sys::fs::make_absolute(absPath);
+      ti.discoveredDependency(BuildKey::makeNode(absPath).toData());
+      system.getDelegate().commandFoundDiscoveredDependency(command, absPath, DiscoveredDependencyKind::Input);
     }
   };
 
